@@ -72,6 +72,9 @@ type Session struct {
 	// parts carry the schema's name, else name#k.
 	Splits        [][]int `json:"splits,omitempty"`
 	SplitSameName bool    `json:"split_same_name,omitempty"`
+	// SplitBuiltIn: the first part of a split schema is handed over as a
+	// BuiltIn source (as a server does with its own prelude of directives)
+	SplitBuiltIn bool `json:"split_builtin,omitempty"`
 
 	Seed      uint64      `json:"seed"`
 	Source    string      `json:"source"`
@@ -119,6 +122,14 @@ func cutsOf(s *Session, i int) []int {
 }
 
 // buildSources cuts one schema text into the sources LoadSchema receives.
+func buildSourcesB(name, text string, cuts []int, sameName, builtIn bool) []*ast.Source {
+	out := buildSources(name, text, cuts, sameName)
+	if builtIn && len(out) > 1 {
+		out[0].BuiltIn = true
+	}
+	return out
+}
+
 func buildSources(name, text string, cuts []int, sameName bool) []*ast.Source {
 	var out []*ast.Source
 	prev := 0
@@ -147,7 +158,7 @@ func (x *execState) schemaSource(i int) []*ast.Source {
 			return src
 		}
 	}
-	src := buildSources(s.Schemas[i].Name, s.Schemas[i].Text, cutsOf(s, i), s.SplitSameName)
+	src := buildSourcesB(s.Schemas[i].Name, s.Schemas[i].Text, cutsOf(s, i), s.SplitSameName, s.SplitBuiltIn)
 	if s.ReuseSources {
 		x.ssrc[i] = src
 	}
@@ -625,6 +636,7 @@ func genSession(seed uint64, source string) *Session {
 		if len(s.Splits) == 0 {
 			s.SplitSameName = r.Chance(1, 2)
 		}
+		s.SplitBuiltIn = r.Chance(1, 4)
 		for len(s.Splits) < len(s.Schemas) {
 			s.Splits = append(s.Splits, nil)
 		}
@@ -988,7 +1000,7 @@ func c10Main(args []string) {
 								k.DocName = docName(s, di)
 							}
 						}
-						k.Cuts, k.SameName = cutsOf(s, si), s.SplitSameName
+						k.Cuts, k.SameName, k.BuiltIn = cutsOf(s, si), s.SplitSameName, s.SplitBuiltIn
 						isoKeys = append(isoKeys, k)
 					}
 				}
@@ -1068,6 +1080,7 @@ type isoKey struct {
 	DocName    string `json:"doc_name,omitempty"`
 	Cuts       []int  `json:"cuts,omitempty"`
 	SameName   bool   `json:"split_same_name,omitempty"`
+	BuiltIn    bool   `json:"split_builtin,omitempty"`
 	Hash       uint64 `json:"hash"`
 	Rendering  string `json:"rendering"`
 	Session    uint64 `json:"session"`
@@ -1107,11 +1120,11 @@ func evalIsolated(k *isoKey) (res isoResult) {
 		// (each evaluation gets a clock / random stream of its own, as two
 		// operations of a session do)
 		verifsim.BeginClock(verifsim.ClockCfg{Seed: 0xa11, Mode: verifsim.ClockSlow})
-		sc, err := gqlparser.LoadSchema(buildSources(k.SchemaName, k.Schema, k.Cuts, k.SameName)...)
+		sc, err := gqlparser.LoadSchema(buildSourcesB(k.SchemaName, k.Schema, k.Cuts, k.SameName, k.BuiltIn)...)
 		if k.Kind == "L" {
 			res.A = gen.RenderError(err)
 			verifsim.BeginClock(verifsim.ClockCfg{Seed: 0xb22, Mode: verifsim.ClockJumpy})
-			_, err2 := gqlparser.LoadSchema(buildSources(k.SchemaName, k.Schema, k.Cuts, k.SameName)...)
+			_, err2 := gqlparser.LoadSchema(buildSourcesB(k.SchemaName, k.Schema, k.Cuts, k.SameName, k.BuiltIn)...)
 			res.B = gen.RenderError(err2)
 			return
 		}
@@ -1259,6 +1272,7 @@ func joinSessions(a, b *Session) *Session {
 		j.Splits = append(j.Splits, cutsOf(b, i))
 	}
 	j.SplitSameName = a.SplitSameName || b.SplitSameName
+	j.SplitBuiltIn = a.SplitBuiltIn || b.SplitBuiltIn
 	j.ReuseSources, j.NamedDocs = b.ReuseSources, b.NamedDocs
 	j.Docs = append(append([]string{}, a.Docs...), b.Docs...)
 	j.Ops = append(j.Ops, a.Ops...)
